@@ -74,6 +74,12 @@ CHECKS = {
   "note": "Trusted: deep snapshots taken by the harness at return time; random walks, not exhaustive.",
   "technique": "TLC-simulated histories of Session.tla replayed into one engine instance + trace validation by TLC (SessionTrace)",
  },
+ "C12": {
+  "text": "Gen_Conc.tla enumerates client mixes (2..32 clients; same text / native basket / native+fallback / distributed / Cancel() racing with Exec); the replayer built with the Go race detector runs each query alone and then all clients concurrently on one engine and one storage under seeded yields; TLC validates SessionTrace.tla: every concurrent result equals the solo result (Agree), and every race report with an engine frame is a `race` event that no action accepts (RaceFree).",
+  "design_ref": "DESIGN.md §6 C12, §8",
+  "note": "Trusted: the Go race detector as the sensor of unsynchronised accesses (only executed accesses are seen); seeded perturbation, not exhaustive interleavings.",
+  "technique": "TLC-enumerated concurrency mixes replayed under the race detector + trace validation by TLC (SessionTrace: Agree, RaceFree)",
+ },
  "C13": {
   "text": "Fault enumeration bound to ExecTrace.tla: a runtime panic injected at every storage callback index k reached by the fault-free run, on whichever goroutine evaluates it, for plan shapes covering every operator (Gen_Fault.tla), in child processes; TLC validates PanicSurfaces / ExecReturns / no ProcessDead on the recorded life-cycle events. Crashes on extreme parameters / degenerate data found by the other checks' replays are attributed here as ProcessDead.",
   "design_ref": "DESIGN.md §6 C13",
